@@ -180,6 +180,7 @@ class Replay:
         self.cur = 1  # next record to consume
         self.compare_energy = compare_spec_energy and not self.var.twostage
         self.T = self.start["T"]
+        self.pu = float(self.start.get("pu", 1))     # spec pilots are in units of 1/pu ampere
         self.volt = self.start["volt"]
         self.ns = self.start["ns"]
         self.k = self.var.shift
@@ -286,7 +287,11 @@ class Replay:
     def realise(self, m):
         rows = idx_map(m["rows"]) if m["rows"] not in ([], {}) else {}
         rng = self.var.rng
-        items = [(sid(s), list(v)) for s, v in rows.items()]
+        if self.pu == 1:
+            items = [(sid(s), list(v)) for s, v in rows.items()]
+        else:       # non-integral pilots: integral values stay ints, so a row may mix ints and floats
+            items = [(sid(s), [x // int(self.pu) if x % int(self.pu) == 0 else x / self.pu for x in v])
+                     for s, v in rows.items()]
         if m["kind"] == "unknown":
             items.append(("NOPE-99", [0] * m["len"]))
         if m["kind"] == "ragged":
@@ -352,7 +357,7 @@ class Replay:
         if not self.k:
             self._chk("C05", "last_applied_pilot_signals.keys", sorted(vid(i) for i in lastP), sorted(lp))
             for i, p in lastP.items():
-                self._chk("C05", "last_applied_pilot_signals", p, lp[vid(i)], close(lp[vid(i)], p))
+                self._chk("C05", "last_applied_pilot_signals", p / self.pu, lp[vid(i)], close(lp[vid(i)], p / self.pu))
         if self.compare_energy:
             self._chk("C05", "prev_peak", self.peak_spec(obs["peakN"]), iface.get_prev_peak(),
                       close(iface.get_prev_peak(), self.peak_spec(obs["peakN"])))
@@ -462,9 +467,10 @@ class Replay:
         for s in range(1, self.ns + 1):
             j = self.row(s)
             p_impl = float(sim.pilot_signals[j, t]) if t < sim.pilot_signals.shape[1] else 0.0
-            self._chk("C04", "pilot_signals[%s,%d]" % (sid(s), t), r["P"][s - 1], p_impl, close(p_impl, r["P"][s - 1]))
+            want = r["P"][s - 1] / self.pu
+            self._chk("C04", "pilot_signals[%s,%d]" % (sid(s), t), want, p_impl, close(p_impl, want))
             cp = float(sim.network._EVSEs[sid(s)].current_pilot)
-            self._chk("C04", "evse.current_pilot[%s]@%d" % (sid(s), t), r["P"][s - 1], cp, close(cp, r["P"][s - 1]))
+            self._chk("C04", "evse.current_pilot[%s]@%d" % (sid(s), t), want, cp, close(cp, want))
         for s in range(1, self.ns + 1):
             j = self.row(s)
             rate = float(sim.charging_rates[j, t])
@@ -507,6 +513,7 @@ class Replay:
             rowspec = spec_pilots[s - 1]
             for k0, p in enumerate(rowspec):
                 k = k0 + self.k
+                p = p / self.pu
                 p_impl = float(sim.pilot_signals[j, k]) if k < w else 0.0
                 self._chk(owner, "%s[%s,%d]" % (what, sid(s), k0), p, p_impl, close(p_impl, p))
             for k in list(range(0, min(self.k, w))) + list(range(len(rowspec) + self.k, w)):
